@@ -388,10 +388,10 @@ pub fn run(tier: Tier) -> i32 {
     rep.assumptions = vec!["f64 states whose printed text contains an exponent or non-finite literal are excluded by the statement and counted as terminal".into()];
     install_panic_hook();
     let k = if tier.thorough() { 5 } else { 4 };
-    let sym_texts: Vec<&'static str> = vec!["x", "1", "x+y", "x*1-y", "f(x)", "-x^2", "sin(x+1)*y", "x mx y", "mx(x,1)/y", "{a b}+C", "--x", "f sin x", "(x+1)*(y-2)", "x/y/2", "1+2+x+3", "ln(x)^y", "{a\"b}+x", "{a\\b}*{tab\there}"];
+    let sym_texts: Vec<&'static str> = vec!["x", "1", "x+y", "x*1-y", "f(x)", "-x^2", "sin(x+1)*y", "x mx y", "mx(x,1)/y", "{a b}+C", "--x", "f sin x", "(x+1)*(y-2)", "x/y/2", "1+2+x+3", "ln(x)^y", "{ y}-x", "{x }*2+x", "{a\"b}+x", "{a\\b}*{tab\there}"];
     let m = RoundTrip::<Sym> { texts: Arc::new(sym_texts), pool: Arc::new(vec!["y", "1", "x*2", "f(z)"]), uns: vec!["-", "f", "sin"], bins: vec!["+", "-", "/", "mx"], max_len: k, _t: Default::default() };
     explore(m, &mut rep, "c12", "symbolic");
-    let f_texts: Vec<&'static str> = vec!["x", "1.5", "x+y", "x*0.5-y", "sin(x)", "-x^2", "sin(x+1)*y", "max(x,1)/y", "{a b}+PI", "--x", "cos sin x", "(x+1)*(y-2)", "x/y/2", "1+2+x+3", "ln(x)^y", "x min y", "atan2(x,y)+e", "{a\"b}+x", "{a\\b}*{tab\there}"];
+    let f_texts: Vec<&'static str> = vec!["x", "1.5", "x+y", "x*0.5-y", "sin(x)", "-x^2", "sin(x+1)*y", "max(x,1)/y", "{a b}+PI", "--x", "cos sin x", "(x+1)*(y-2)", "x/y/2", "1+2+x+3", "ln(x)^y", "x min y", "atan2(x,y)+e", "{ y}-x", "{x }*2+x", "{a\"b}+x", "{a\\b}*{tab\there}"];
     let m = RoundTrip::<f64> { texts: Arc::new(f_texts), pool: Arc::new(vec!["y", "2", "x*0.5", "cos(z)"]), uns: vec!["-", "sqrt", "sin"], bins: vec!["+", "-", "/", "^", "max"], max_len: k, _t: Default::default() };
     explore(m, &mut rep, "c12", "f64");
     // large expressions (more than 255 operands / variables / nesting levels on the way down),
